@@ -720,7 +720,7 @@ class Gen:
         some(r.choice([0, 0, 1, 2]))
         chain = []
         parent = list(r.choice([(), (), base]))
-        if must(["NewSpace", parent, names[1], [list(base)] + ([list(r.choice(list(mir.sp)))] if r.random() < 0.15 else [])]):
+        if must(["NewSpace", parent, names[1], [list(base)] + ([list(r.choice(list(mir.sp) or [base]))] if r.random() < 0.15 else [])]):
             chain.append(tuple(parent) + (names[1],))
         for k in range(r.choice([0, 1, 1, 2, 3])):
             if not chain:
